@@ -16,3 +16,14 @@ func verifGate(point string, args ...interface{}) {
 		g(point, args...)
 	}
 }
+
+// VerifClock, when set, stands in for the clock the message ids are taken from: it receives the id
+// derived from the real time and returns the one to use (a clock that stands still or steps back).
+var VerifClock func(msgID int64) int64
+
+func verifClock(msgID int64) int64 {
+	if c := VerifClock; c != nil {
+		return c(msgID)
+	}
+	return msgID
+}
